@@ -1,6 +1,7 @@
 package main
 
 import (
+	"time"
 	"encoding/hex"
 	"fmt"
 	"math"
@@ -248,18 +249,32 @@ func runFilter() {
 		for _, d := range f[1:] {
 			docs = append(docs, unhex(d))
 		}
-		fmt.Fprintln(out, tokensLine(text))
-		fmt.Fprintln(out, astLine(text))
-		v1 := verdictLine(text, docs)
-		fmt.Fprintln(out, v1)
-		fmt.Fprintln(out, searchLine(text, docs))
-		// the same text submitted again, after other entry points have compiled it: the outcome is a function of the text
-		if v2 := verdictLine(text, docs); v2 == v1 {
-			fmt.Fprintln(out, "R same")
-		} else {
-			fmt.Fprintln(out, "R"+v2[1:])
+		// bounded time: a case that does not finish within 10 s is reported and ends the run
+		done := make(chan []string, 1)
+		go func() {
+			var ls []string
+			ls = append(ls, tokensLine(text), astLine(text))
+			v1 := verdictLine(text, docs)
+			ls = append(ls, v1, searchLine(text, docs))
+			// the same text submitted again, after other entry points have compiled it: the outcome is a function of the text
+			if v2 := verdictLine(text, docs); v2 == v1 {
+				ls = append(ls, "R same")
+			} else {
+				ls = append(ls, "R"+v2[1:])
+			}
+			ls = append(ls, historyLine(text, docs))
+			done <- ls
+		}()
+		select {
+		case ls := <-done:
+			for _, l := range ls {
+				fmt.Fprintln(out, l)
+			}
+		case <-time.After(10 * time.Second):
+			fmt.Fprintf(out, "HANG %s\n", hexOf([]byte(text)))
+			out.Flush()
+			os.Exit(3)
 		}
-		fmt.Fprintln(out, historyLine(text, docs))
 	}
 	out.Flush()
 }
